@@ -7,7 +7,7 @@ for sid in $ids; do
   P=${sid%%-*}
   git -C /repo diff --quiet || { echo "/repo is not clean"; exit 3; }
   git -C /repo apply /verif/seeded/$sid/patch.diff || { echo "$sid: does not apply"; continue; }
-  out=$(timeout 900 VERIF_SCRATCH_EVIDENCE=1 ./check $P quick 2>&1); rc=$?
+  out=$(env VERIF_SCRATCH_EVIDENCE=1 timeout 900 ./check $P quick 2>&1); rc=$?
   git -C /repo checkout -- .
   lab=$(echo "$out" | grep -o "entry=[A-Za-z0-9]* label=[a-zA-Z0-9_-]*" | head -2 | tr '\n' ';')
   echo "$P:quick:rc=$rc:$lab" > seeded/$sid/result.txt
